@@ -61,6 +61,10 @@ type Config struct {
 	TimeoutMs      int
 	Trace          bool
 	SchedExplore   int // -1 canonical; k>=0: explore with at most k pre-emptions
+	// SchedDelay (with SchedExplore=k): delay-bounded exploration — the non-preemptive choices (which goroutine
+	// runs when the current one blocks, yields, or drains) follow the canonical round-robin order; only the
+	// <= k pre-emptions at synchronisation points and selects with several ready cases are forked.
+	SchedDelay     bool
 	MapOrderNondet bool
 	QueryLog       string
 	NoIfConv       bool
@@ -348,6 +352,19 @@ func (fr *frame) get(key ssa.Value) Value {
 }
 
 func (e *Engine) global(g *ssa.Global) *Value {
+	if g.Pkg != nil && g.Pkg.Pkg.Path() == "os" {
+		// package os is opaque and never initialised, but its sentinel errors are compared against everywhere
+		// (errors.Is(err, os.ErrNotExist)); they are aliases of the internal/oserror values, which are plain
+		// errors.New results and are interpreted. Without this os.ErrNotExist is a nil error under the engine.
+		switch g.Name() {
+		case "ErrInvalid", "ErrPermission", "ErrExist", "ErrNotExist", "ErrClosed":
+			if op := e.Prog.ImportedPackage("internal/oserror"); op != nil {
+				if og := op.Var(g.Name()); og != nil {
+					return e.global(og)
+				}
+			}
+		}
+	}
 	if g.Pkg != nil {
 		e.ensureInit(g.Pkg)
 	}
